@@ -98,6 +98,11 @@ func (c Compressor) DecompressWithLength(source io.Reader, dest io.Writer) error
 }
 
 func decompress(source []byte) (dest []byte, err error) {
+	if len(source) == 1 && source[0] == 0 {
+		// a block made of a single zero token is how an empty message is compressed (see Compress); the lz4
+		// library does not decode it
+		return []byte{}, nil
+	}
 	// try destination buffers of increased length to avoid allocating too much space, starting with twice the
 	// compressed length and up to 256 times the compressed length (an LZ4 block cannot expand by more than 255:1)
 	compressedLength := len(source)
